@@ -940,8 +940,24 @@ func (in *Interp) eval(fr *Frame, v ssa.Value) Value {
 	case *ssa.Select:
 		return in.execSelect(fr, x)
 	case *ssa.MakeSlice:
-		n := int(in.concretize(in.get(fr, x.Len).(*Term), 0, 64, true))
-		c := int(in.concretize(in.get(fr, x.Cap).(*Term), 0, 64, true))
+		mk := func(t *Term) int {
+			if t.IsConst() {
+				if t.Int() < 0 {
+					in.abort("panic", "makeslice: len out of range in "+fr.fn.String())
+				}
+				return int(t.Int())
+			}
+			// symbolic size: negative is a checked panic, sizes above 64 are outside the executor's bound
+			if in.branch(CmpBV("bvslt", t, BVi(t.w, 0))) {
+				in.abort("panic", "makeslice: len out of range in "+fr.fn.String())
+			}
+			if !in.branch(CmpBV("bvsle", t, BVi(t.w, 64))) {
+				in.abort("limit", "make with a symbolic size above 64")
+			}
+			return int(in.concretize(t, 0, 64, true))
+		}
+		n := mk(in.get(fr, x.Len).(*Term))
+		c := mk(in.get(fr, x.Cap).(*Term))
 		et := x.Type().Underlying().(*types.Slice).Elem()
 		arr := make([]*Loc, c)
 		for i := range arr {
